@@ -450,3 +450,13 @@ V("c07-aux-fill-no-conj", "C07", {"rule": "C07e", "contains": "hermitian fill"},
   (GSS, "        state._C, assign_index, np.conj(state._C[modes, :]).transpose()", "        state._C, assign_index, state._C[modes, :].transpose()"))
 V("c07-preserving-transposed-rewrite", "C07", "silent",
   (GSS, "    state._G = connector.assign(state._G, index, T @ state._G[index] @ T.transpose())", "    state._G = connector.assign(state._G, index, (T @ state._G[index].transpose() @ T.transpose()).transpose())"))
+V("c12-resolve-writes-incrementally", "C12", {"rule": "C12a", "contains": "atomic"},
+  (INSTR, "            _resolved_params[name] = resolved_param\n\n        self._params.update(_resolved_params)", "            self._params[name] = resolved_param"))
+V("c12-validate-sorts-user-list", "C12", {"rule": "C12c", "contains": "_validate_instruction_order"},
+  (SIMF, "    def _validate_instruction_order(self, instructions: List[Instruction]) -> None:\n        self._validate_preparations_at_beginning(instructions)", "    def _validate_instruction_order(self, instructions: List[Instruction]) -> None:\n        instructions.sort(key=lambda i: not isinstance(i, Preparation))\n        self._validate_preparations_at_beginning(instructions)"))
+V("c12-export-reverses-program", "C12", {"rule": "C12c", "contains": "to_blackbird_code"},
+  ("piquasso/api/program.py", "        blackbird_program = _blackbird.export_instructions(self.instructions)\n\n        return blackbird.dumps(blackbird_program)", "        self.instructions.reverse()\n        blackbird_program = _blackbird.export_instructions(self.instructions)\n\n        return blackbird.dumps(blackbird_program)"))
+V("c12-execute-pops-measurement", "C12", {"rule": "C12c", "contains": "execute"},
+  (SIMF, "        instructions: List[Instruction] = program.instructions\n", "        instructions: List[Instruction] = program.instructions\n        if instructions and shots is None:\n            instructions.append(instructions.pop())\n"))
+V("c03-samples-rounded", "C03", {"rule": "C03a", "contains": "float"},
+  ("piquasso/api/result.py", "            _samples.extend([tuple(branch.outcome)] * int(branch.frequency * shots))", "            _samples.extend([tuple(branch.outcome)] * round(float(branch.frequency * shots) + 0.4))"))
